@@ -23,7 +23,14 @@ for an input on which the real code is wrong.
 Tolerated rewrites: lambdas or local `def`s with a single return, conditional expressions instead of `if` statements,
 `len(x._child_nodes) > 0` / `!= 0` / `== 0`, `bool(…)`, `x.is_leaf()`, `x.is_internal()`, `x.child_nodes()`,
 `x.parent_node`, `… is None`, `not …`, commuted operands (the bridge is proved by case analysis), keyword or positional
-`filter_fn` in the delegating call, a list/generator comprehension around the delegating call."""
+`filter_fn` in the delegating call, a list/generator comprehension around the delegating call; local `def`s whose body
+is straight-line temporaries (plain attribute reads), `if`s with early `return`s and a final `return`; and a filter
+obtained from a CALL to a helper - a function of the same module, or a method / staticmethod / classmethod of the same
+class - whose body is again assignments, `if`s on the flags, local defs / lambdas and a `return` of one of them: the
+helper is inlined (its parameters take the roles of the caller's parameters they are bound to, or of the literal
+None/True/False, or of a local lambda handed on), up to three levels deep.  A helper from another module, a decorated
+one, a generator, one with *args/**kwargs, a recursive one, or an argument that is anything but a parameter / local
+lambda / literal is Unsupported."""
 import ast
 import os
 
@@ -33,8 +40,11 @@ NAME = "C15Filters"
 
 
 class Lam(object):
-    def __init__(self, arg, body, env):
-        self.arg, self.body, self.env = arg, body, env
+    """a lambda / local def: argument name, body (an expression, or the statement list of a def), the environment it
+    closes over, and the translator (= the function whose parameters it sees) it was written in"""
+
+    def __init__(self, arg, body, env, tr):
+        self.arg, self.body, self.env, self.tr = arg, body, env, tr
 
 
 class Ite(object):
@@ -46,49 +56,88 @@ def _is_none(e):
     return isinstance(e, ast.Constant) and e.value is None
 
 
+def _const(e):
+    return isinstance(e, ast.Constant) and (e.value is None or e.value is True or e.value is False)
+
+
 class Translator(object):
-    """one wrapper function: parameter roles and a symbolic environment of the local lambdas"""
+    """one function (a wrapper, or a helper inlined into it): the roles of its parameters and a symbolic environment of
+    the local lambdas.  roles: name -> "excl" (the exclude_seed_* flag) | "filter" (the user's filter_fn) |
+    ("const", value) (a parameter bound to the literal None / True / False at the call that is being inlined)"""
 
-    def __init__(self, fn, excl_param, head_of_edge):
+    def __init__(self, fn, roles, head_of_edge, module, cls=None, depth=0):
         self.fn = fn
-        self.excl = excl_param            # name of the exclude_* parameter (or None)
+        self.roles = roles
         self.edge = head_of_edge          # the lambda argument is an Edge: the node is x._head_node
+        self.module, self.cls, self.depth = module, cls, depth
         self.delegate = None
+        self.temps = {}                   # straight-line temporaries inside a def body: name -> expression
 
-    # ---- conditions of `if` statements / conditional expressions: flags only
-    def flag(self, e):
-        if isinstance(e, ast.Name) and self.excl is not None and e.id == self.excl:
+    def role(self, e):
+        return self.roles.get(e.id) if isinstance(e, ast.Name) else None
+
+    # ---- flags: what does not depend on the visited object
+    def flag(self, e, soft=False):
+        """Lean Bool over excl / hasFilter for a condition built from the flags; None (soft) or Unsupported otherwise"""
+        r = self.role(e)
+        if r == "excl":
             return "excl"
-        if isinstance(e, ast.Compare) and len(e.ops) == 1 and isinstance(e.left, ast.Name) and e.left.id == "filter_fn" \
-                and _is_none(e.comparators[0]):
-            if isinstance(e.ops[0], ast.IsNot):
-                return "hasFilter"
-            if isinstance(e.ops[0], ast.Is):
-                return "!hasFilter"
+        if isinstance(r, tuple):
+            return "true" if r[1] else "false"
+        if isinstance(e, ast.Compare) and len(e.ops) == 1 and _is_none(e.comparators[0]) \
+                and isinstance(e.ops[0], (ast.Is, ast.IsNot)):
+            rl = self.role(e.left)
+            pos = isinstance(e.ops[0], ast.IsNot)
+            if rl == "filter":
+                return "hasFilter" if pos else "!hasFilter"
+            if isinstance(rl, tuple):
+                return "true" if ((rl[1] is not None) == pos) else "false"
         if isinstance(e, ast.UnaryOp) and isinstance(e.op, ast.Not):
-            return "!(%s)" % self.flag(e.operand)
-        if isinstance(e, ast.Name) and e.id == "filter_fn":
+            f = self.flag(e.operand, soft)
+            return None if f is None else "!(%s)" % f
+        if isinstance(e, ast.BoolOp):
+            fs = [self.flag(v, soft) for v in e.values]
+            if all(f is not None for f in fs):
+                return "(" + (" && " if isinstance(e.op, ast.And) else " || ").join(fs) + ")"
+            return None
+        if r == "filter":
             raise Unsupported("%s tests the truthiness of the filter object (`if filter_fn`), not `filter_fn is not None`" % self.fn.name)
+        if soft:
+            return None
         raise Unsupported("%s: condition outside the subset: %s" % (self.fn.name, ast.dump(e)[:120]))
 
     # ---- the node an expression denotes (x, or x._head_node for edge lambdas)
+    def res(self, e):
+        seen = 0
+        while isinstance(e, ast.Name) and e.id in self.temps and seen < 20:
+            e, seen = self.temps[e.id], seen + 1
+        return e
+
     def is_node(self, e, arg):
+        e = self.res(e)
         if self.edge:
             return isinstance(e, ast.Attribute) and e.attr in ("_head_node", "head_node") and isinstance(e.value, ast.Name) \
                 and e.value.id == arg
         return isinstance(e, ast.Name) and e.id == arg
 
     def is_kids(self, e, arg):
+        e = self.res(e)
         if isinstance(e, ast.Attribute) and e.attr == "_child_nodes" and self.is_node(e.value, arg):
             return True
         return isinstance(e, ast.Call) and not e.args and not e.keywords and isinstance(e.func, ast.Attribute) \
             and e.func.attr == "child_nodes" and self.is_node(e.func.value, arg)
 
     def is_parent(self, e, arg):
+        e = self.res(e)
         return isinstance(e, ast.Attribute) and e.attr in ("_parent_node", "parent_node") and self.is_node(e.value, arg)
 
     # ---- truthiness of an expression inside a lambda whose argument is `arg`
     def truth(self, e, arg, env):
+        e = self.res(e)
+        if not (isinstance(e, ast.Name) and e.id == arg):
+            f = self.flag(e, soft=True)
+            if f is not None:
+                return f
         if isinstance(e, ast.BoolOp):
             op = " && " if isinstance(e.op, ast.And) else " || "
             return "(" + op.join(self.truth(v, arg, env) for v in e.values) + ")"
@@ -99,13 +148,14 @@ class Translator(object):
         if isinstance(e, ast.Constant) and e.value is True:
             return "true"
         if isinstance(e, ast.IfExp):
-            return "(if %s then %s else %s)" % (self.flag(e.test), self.truth(e.body, arg, env), self.truth(e.orelse, arg, env))
+            return "(if %s then %s else %s)" % (self.truth(e.test, arg, env), self.truth(e.body, arg, env), self.truth(e.orelse, arg, env))
         if self.is_kids(e, arg):
             return "hasKids"
         if isinstance(e, ast.Compare) and len(e.ops) == 1:
             l, op, r = e.left, e.ops[0], e.comparators[0]
             if self.is_parent(l, arg) and _is_none(r) and isinstance(op, (ast.Is, ast.IsNot)):
                 return "hasParent" if isinstance(op, ast.IsNot) else "!hasParent"
+            l = self.res(l)
             if isinstance(l, ast.Call) and isinstance(l.func, ast.Name) and l.func.id == "len" and len(l.args) == 1 \
                     and self.is_kids(l.args[0], arg) and isinstance(r, ast.Constant) and r.value == 0 \
                     and type(r.value) is int:
@@ -113,64 +163,181 @@ class Translator(object):
                     return "hasKids"
                 if isinstance(op, ast.Eq):
                     return "!hasKids"
-        if isinstance(e, ast.Call) and isinstance(e.func, ast.Name) and e.func.id == "bool" and len(e.args) == 1 and not e.keywords:
+        if isinstance(e, ast.Call) and isinstance(e.func, ast.Name) and e.func.id == "bool" and len(e.args) == 1 and not e.keywords \
+                and "bool" not in env and "bool" not in self.roles:
             return self.truth(e.args[0], arg, env)
         if isinstance(e, ast.Call) and isinstance(e.func, ast.Attribute) and not e.args and not e.keywords \
                 and self.is_node(e.func.value, arg) and e.func.attr in ("is_leaf", "is_internal"):
             return "!hasKids" if e.func.attr == "is_leaf" else "hasKids"
         if isinstance(e, ast.Call) and isinstance(e.func, ast.Name) and len(e.args) == 1 and not e.keywords:
-            a = e.args[0]
-            if e.func.id == "filter_fn":
+            a = self.res(e.args[0])
+            if self.role(e.func) == "filter":
                 if isinstance(a, ast.Name) and a.id == arg:
                     return "pass"
                 if isinstance(a, ast.Attribute) and a.attr in ("edge", "_edge") and isinstance(a.value, ast.Name) and a.value.id == arg:
                     return "pass"     # the node-level wrapper of an edge filter
                 raise Unsupported("%s: filter_fn is called with something else than the visited object" % self.fn.name)
             if e.func.id in env and isinstance(a, ast.Name) and a.id == arg:
-                return self.apply(env[e.func.id], env)
+                return self.apply(env[e.func.id])
         if self.is_node(e, arg) or (isinstance(e, ast.Name) and e.id == arg):
             raise Unsupported("%s tests the truthiness of the visited %s itself (`x and …`): a node/edge class with __len__ or "
                               "__bool__ would be dropped" % (self.fn.name, "edge" if self.edge else "node"))
         raise Unsupported("%s: expression outside the subset: %s" % (self.fn.name, ast.dump(e)[:160]))
 
-    def apply(self, v, env):
+    def block_truth(self, stmts, arg, env):
+        """truthiness of what a def body returns: straight-line temporaries, `if` (early returns), `return`.
+        Falling off the end returns None, i.e. false."""
+        if not stmts:
+            return "false"
+        st, rest = stmts[0], list(stmts[1:])
+        if isinstance(st, ast.Expr) and isinstance(st.value, ast.Constant) and isinstance(st.value.value, str):
+            return self.block_truth(rest, arg, env)
+        if isinstance(st, ast.Pass):
+            return self.block_truth(rest, arg, env)
+        if isinstance(st, ast.Return):
+            return "false" if st.value is None else self.truth(st.value, arg, env)
+        if isinstance(st, ast.If):
+            return "(if %s then %s else %s)" % (self.truth(st.test, arg, env), self.block_truth(list(st.body) + rest, arg, env),
+                                                self.block_truth(list(st.orelse) + rest, arg, env))
+        if isinstance(st, ast.Assign) and len(st.targets) == 1 and isinstance(st.targets[0], ast.Name):
+            name = st.targets[0].id
+            if name == arg or name in self.roles or name in env or name in self.temps:
+                raise Unsupported("%s: %s is re-assigned inside a predicate" % (self.fn.name, name))
+            if any(isinstance(n, (ast.Call, ast.Yield, ast.Await, ast.NamedExpr)) for n in ast.walk(st.value)) \
+                    and not self.is_kids(st.value, arg):
+                raise Unsupported("%s: temporary %s is not a plain attribute read" % (self.fn.name, name))
+            self.temps[name] = st.value
+            try:
+                return self.block_truth(rest, arg, env)
+            finally:
+                del self.temps[name]
+        raise Unsupported("%s: statement outside the subset inside a predicate: %s" % (self.fn.name, ast.dump(st)[:120]))
+
+    def apply(self, v):
         if isinstance(v, Ite):
-            return "(if %s then %s else %s)" % (v.cond, self.apply(v.a, env), self.apply(v.b, env))
+            return "(if %s then %s else %s)" % (v.cond, self.apply(v.a), self.apply(v.b))
         if isinstance(v, Lam):
-            return self.truth(v.body, v.arg, v.env)
+            if isinstance(v.body, list):
+                return v.tr.block_truth(v.body, v.arg, v.env)
+            return v.tr.truth(v.body, v.arg, v.env)
         raise Unsupported("%s: not a lambda" % self.fn.name)
+
+    # ---- helpers: a filter obtained from a call to a function of the same module / a method of the same class
+    def find_helper(self, f):
+        """(FunctionDef, skip_first_param) for the callee of a helper call, or Unsupported"""
+        if isinstance(f, ast.Name):
+            cands = [n for n in self.module.body if isinstance(n, ast.FunctionDef) and n.name == f.id]
+            if len(cands) != 1:
+                raise Unsupported("%s: %s is not a (unique) function of the same module" % (self.fn.name, f.id))
+            return cands[0], False
+        if isinstance(f, ast.Attribute) and isinstance(f.value, ast.Name) and self.cls is not None \
+                and f.value.id in ("self", "cls", self.cls.name, "type(self)"):
+            cands = [n for n in self.cls.body if isinstance(n, ast.FunctionDef) and n.name == f.attr]
+            if len(cands) != 1:
+                raise Unsupported("%s: %s is not a (unique) method of %s" % (self.fn.name, f.attr, self.cls.name))
+            h = cands[0]
+            decos = [d.id for d in h.decorator_list if isinstance(d, ast.Name)]
+            if len(decos) != len(h.decorator_list) or any(d not in ("staticmethod", "classmethod") for d in decos):
+                raise Unsupported("%s: helper %s carries a decorator that is not staticmethod/classmethod" % (self.fn.name, h.name))
+            if "staticmethod" in decos:
+                return h, False
+            if "classmethod" not in decos and f.value.id != "self":
+                raise Unsupported("%s: instance method %s called through the class" % (self.fn.name, h.name))
+            return h, True
+        raise Unsupported("%s: call outside the subset: %s" % (self.fn.name, ast.dump(f)[:100]))
+
+    def inline(self, call, env):
+        if self.depth >= 3:
+            raise Unsupported("%s: helpers nested too deep" % self.fn.name)
+        h, skip = self.find_helper(call.func)
+        if h is self.fn:
+            raise Unsupported("%s: recursive helper" % self.fn.name)
+        a = h.args
+        if a.vararg or a.kwarg or a.kwonlyargs or a.posonlyargs:
+            raise Unsupported("%s: signature of helper %s" % (self.fn.name, h.name))
+        if any(isinstance(n, (ast.Global, ast.Nonlocal, ast.Yield, ast.YieldFrom)) for n in ast.walk(h)):
+            raise Unsupported("%s: helper %s is a generator or rebinds outer names" % (self.fn.name, h.name))
+        names = [x.arg for x in a.args][1 if skip else 0:]
+        defaults = dict(zip([x.arg for x in a.args][len(a.args) - len(a.defaults):], a.defaults))
+        if len(call.args) > len(names) or any(isinstance(x, ast.Starred) for x in call.args) or any(k.arg is None for k in call.keywords):
+            raise Unsupported("%s: arguments of the call to %s" % (self.fn.name, h.name))
+        given = dict(zip(names, call.args))
+        for k in call.keywords:
+            if k.arg not in names or k.arg in given:
+                raise Unsupported("%s: keyword %s of the call to %s" % (self.fn.name, k.arg, h.name))
+            given[k.arg] = k.value
+        roles, henv = {}, {}
+        for nm in names:
+            v = given.get(nm, defaults.get(nm))
+            if v is None:
+                raise Unsupported("%s: parameter %s of %s gets no value" % (self.fn.name, nm, h.name))
+            if _const(v):
+                roles[nm] = ("const", v.value)
+            elif isinstance(v, ast.Name) and v.id in env:
+                henv[nm] = env[v.id]            # a lambda of the caller handed on
+            elif isinstance(v, ast.Name) and v.id in self.roles:
+                roles[nm] = self.roles[v.id]
+            elif isinstance(v, ast.UnaryOp) and isinstance(v.op, ast.Not) and isinstance(self.role(v.operand), tuple):
+                roles[nm] = ("const", not self.role(v.operand)[1])
+            else:
+                raise Unsupported("%s: argument %s of the call to %s is neither a parameter of the caller, a local lambda nor a "
+                                  "literal: %s" % (self.fn.name, nm, h.name, ast.dump(v)[:80]))
+        sub = Translator(h, roles, self.edge, self.module, self.cls, self.depth + 1)
+        v = sub.run(h.body, henv, helper=True)
+        if v is None:
+            raise Unsupported("%s: helper %s does not return a predicate on every path" % (self.fn.name, h.name))
+        return v
 
     # ---- statements
     def value(self, e, env):
-        if isinstance(e, ast.Lambda) and len(e.args.args) == 1 and not e.args.defaults:
-            return Lam(e.args.args[0].arg, e.body, dict(env))
+        if isinstance(e, ast.Lambda) and len(e.args.args) == 1 and not e.args.defaults and not e.args.vararg \
+                and not e.args.kwarg and not e.args.kwonlyargs:
+            return Lam(e.args.args[0].arg, e.body, dict(env), self)
         if isinstance(e, ast.Name) and e.id in env:
             return env[e.id]
         if isinstance(e, ast.IfExp):
             return Ite(self.flag(e.test), self.value(e.body, env), self.value(e.orelse, env))
         if _is_none(e):
             return None
+        if isinstance(e, ast.Call):
+            return self.inline(e, env)
         raise Unsupported("%s: assignment outside the subset: %s" % (self.fn.name, ast.dump(e)[:120]))
 
-    def run(self, stmts, env):
-        """returns the filter value handed to the delegate, or None when the block does not return"""
+    def run(self, stmts, env, helper=False):
+        """returns the filter value handed to the delegate (helper: the predicate returned), or None when the block does
+        not return"""
         for st in stmts:
             if isinstance(st, ast.Expr) and isinstance(st.value, ast.Constant) and isinstance(st.value.value, str):
                 continue   # docstring
+            if isinstance(st, ast.Pass):
+                continue
             if isinstance(st, ast.Assign) and len(st.targets) == 1 and isinstance(st.targets[0], ast.Name):
+                if st.targets[0].id in self.roles:
+                    raise Unsupported("%s re-assigns its parameter %s" % (self.fn.name, st.targets[0].id))
                 env[st.targets[0].id] = self.value(st.value, env)
                 continue
-            if isinstance(st, ast.FunctionDef) and len(st.args.args) == 1 and len(st.body) == 1 and isinstance(st.body[0], ast.Return):
-                env[st.name] = Lam(st.args.args[0].arg, st.body[0].value, dict(env))
+            if isinstance(st, ast.FunctionDef) and len(st.args.args) == 1 and not st.args.defaults and not st.decorator_list \
+                    and not st.args.vararg and not st.args.kwarg and not st.args.kwonlyargs:
+                if any(isinstance(n, (ast.Global, ast.Nonlocal, ast.Yield, ast.YieldFrom)) for n in ast.walk(st)):
+                    raise Unsupported("%s: local def %s is a generator or rebinds outer names" % (self.fn.name, st.name))
+                lam = Lam(st.args.args[0].arg, list(st.body), None, self)
+                env[st.name] = lam
+                lam.env = dict(env)
                 continue
             if isinstance(st, ast.If):
                 cond = self.flag(st.test)
                 e1, e2 = dict(env), dict(env)
-                r1, r2 = self.run(st.body, e1), self.run(st.orelse, e2)
-                if (r1 is None) != (r2 is None):
-                    raise Unsupported("%s: one branch returns, the other does not" % self.fn.name)
-                if r1 is not None:
+                r1, r2 = self.run(st.body, e1, helper), self.run(st.orelse, e2, helper)
+                if r1 is not None and r2 is not None:
                     return Ite(cond, r1, r2)
+                if r1 is not None or r2 is not None:
+                    # one branch returns: the other continues with the statements that follow
+                    rest = stmts[stmts.index(st) + 1:]
+                    if r1 is not None:
+                        other = self.run(rest, e2, helper)
+                        return None if other is None else Ite(cond, r1, other)
+                    other = self.run(rest, e1, helper)
+                    return None if other is None else Ite(cond, other, r2)
                 for k in set(e1) | set(e2):
                     a, b = e1.get(k), e2.get(k)
                     if a is not b:
@@ -179,8 +346,15 @@ class Translator(object):
                         env[k] = Ite(cond, a, b)
                 continue
             if isinstance(st, ast.Return):
+                if helper:
+                    if st.value is None:
+                        raise Unsupported("%s: bare return in a helper" % self.fn.name)
+                    v = self.value(st.value, env)
+                    if v is None:
+                        raise Unsupported("%s returns None instead of a predicate" % self.fn.name)
+                    return v
                 return self.returned(st.value, env)
-            if isinstance(st, ast.For) and isinstance(st.iter, ast.Call) and len(st.body) == 1 and isinstance(st.body[0], ast.Expr) \
+            if not helper and isinstance(st, ast.For) and isinstance(st.iter, ast.Call) and len(st.body) == 1 and isinstance(st.body[0], ast.Expr) \
                     and isinstance(st.body[0].value, ast.Yield) and isinstance(st.body[0].value.value, ast.Name) \
                     and isinstance(st.target, ast.Name) and st.body[0].value.value.id == st.target.id and not st.orelse:
                 return self.returned(st.iter, env)     # `for node in self.postorder_iter(ff): yield node`
@@ -188,6 +362,8 @@ class Translator(object):
         return None
 
     def returned(self, e, env):
+        if e is None:
+            raise Unsupported("%s: bare return" % self.fn.name)
         if isinstance(e, (ast.ListComp, ast.GeneratorExp)) and len(e.generators) == 1 and not e.generators[0].ifs \
                 and isinstance(e.elt, ast.Name) and isinstance(e.generators[0].target, ast.Name) \
                 and e.elt.id == e.generators[0].target.id:
@@ -214,7 +390,7 @@ class Translator(object):
         v = self.run(self.fn.body, {})
         if v is None:
             raise Unsupported("%s falls off its end" % self.fn.name)
-        return self.apply(v, {}), self.delegate
+        return self.apply(v), self.delegate
 
 
 def _params(fn):
@@ -289,7 +465,12 @@ def generate(repo):
             if excl not in _params(fn) or "filter_fn" not in _params(fn):
                 raise Unsupported("%s: parameters %s" % (qual, _params(fn)))
             _default_false(fn, excl)
-        body, delegate = Translator(fn, excl, edge).lean()
+        roles = {"filter_fn": "filter"} if "filter_fn" in _params(fn) else {}
+        if excl is not None:
+            roles[excl] = "excl"
+        cname = qual.split(".")[0]
+        cls = [n for n in tree.body if isinstance(n, ast.ClassDef) and n.name == cname]
+        body, delegate = Translator(fn, roles, edge, tree, cls[0] if cls else None).lean()
         out.append("/-- the filter `%s` hands to `self.%s` -/" % (qual, delegate))
         out.append("def %s (excl hasFilter hasParent hasKids pass : Bool) : Bool :=\n  %s" % (lean_name, body))
         out.append("def %sDelegate : String := \"%s\"" % (lean_name, delegate))
